@@ -27,6 +27,19 @@ C41 line-protocol driver.
       SPEC: the reported state violates the property (decided from the reported state alone). DIFF: caches,
       results or the set of closed connections differ from the Lean model run of the same schedule (plus the reaps
       that are due after it).
+  watch <dir> <reused> => returned=…,negotiated=…                  which close-watchers (→ reapPeer) the CURRENT
+      handleIncoming / handleOutgoing start once reuseConnection returned: for the connection it returned, for the
+      negotiated connection when another one was returned (overlay/transport.go; compared with the Gen table)
+  redial <preP> <preQ> => P=<entry>;Q=<entry>;closed=<conns>;Pc=<r>
+      two REAL overlay.QUIC transports with their real accept loops share the cached connection e (a real DialStream by
+      P or by Q); then P dials a further connection c to Q's listener (what getCachedConnection does when its cache
+      check raced with the cache being populated / a second caller) and runs the real handleOutgoing on it, Q's accept
+      loop runs the real handleIncoming; the harness does NOTHING else (no environment event), waits until the
+      losing connection is closed and everything has settled, and reports the caches, what P's end returned and which
+      connections are closed (lower case: 508 / 406, upper case: any other way). SPEC: judged from the reported state
+      alone, and - nothing but the negotiation happened - EVERY close counts as a close by the negotiation.
+      DIFF: differs from the Lean model run sPc,sQc,dPc,dQc (+ the due reaps). Pc=cut (P's end never decided: Q's
+      decision closed c with 508 before P's end had read Q's report) is accepted where the model closes c.
   table => unreadable:<why>       the current source is not in the shape `extract c41-lines` understands (always DIFF)
   live <trial> => <outcome>                                        real overlay.QUIC transports, simultaneous dials
   relive <trial> => <outcome>     real transports: connect, the connection dies, reconnect the other way round,
@@ -73,7 +86,7 @@ def parseStep (s : String) : Option Step :=
 def resStr : PC → String
   | .idle => "idle"
   | .snapped _ _ => "snapped"
-  | .done _ r reaped =>
+  | .done _ r _ reaped =>
     (match r with
      | .reused none => "reused:-"
      | .reused (some x) => "reused:" ++ connStr x
@@ -98,10 +111,10 @@ def settle (s : St) : St :=
 
 /-- `win` lines: what two real transports can report -/
 def winRes : PC → String
-  | .done _ (.reused none) _ => "reused:-"
-  | .done _ (.reused (some x)) _ => "reused:" ++ connStr x
-  | .done _ .fresh _ => "fresh"
-  | .done _ .err _ => "err"
+  | .done _ (.reused none) _ _ => "reused:-"
+  | .done _ (.reused (some x)) _ _ => "reused:" ++ connStr x
+  | .done _ .fresh _ _ => "fresh"
+  | .done _ .err _ _ => "err"
   | .snapped _ _ => "snapped"
   | .idle => "idle"
 def winStr (s : St) : String :=
@@ -128,6 +141,7 @@ def reportedFinal (dual : Bool) (rhs : String) : Bool :=
     if !active then true
     else if r = "idle" ∨ r = "snapped" ∨ r = "?" then false
     else if r = "fresh" ∧ isIn conn then false     -- a stored connection was closed: its reap is still due
+    -- (`fresh+reaped` / `reused:x+reaped`: the end's close-watcher has run)
     else true
   -- the close-watcher of a closed pre-existing connection still has to reap
   let watcherDone (k : String) : Bool := !(field rhs k = "watch" && isIn "e")
@@ -140,7 +154,8 @@ def specOf (rhs : String) (crossExempt : Bool := false) : Option String :=
   let p := connOf (field rhs "P")
   let q := connOf (field rhs "Q")
   let closed := field rhs "closed"
-  let results := ["Pc", "Qc", "Qd", "Pd"].map fun k => (k, field rhs k)
+  -- (a result may carry the suffix `+reaped`: the end's close-watcher has run)
+  let results := ["Pc", "Qc", "Qd", "Pd"].map fun k => (k, ((field rhs k).splitOn "+").headD "")
   if p ≠ "-" ∧ q ≠ "-" ∧ p ≠ q then some s!"split brain: P caches {p}, Q caches {q}"
   else if (p = "c" ∨ p = "d") ∧ q ≠ p then some s!"P caches the new connection {p} but Q caches {q}"
   else if (q = "c" ∨ q = "d") ∧ p ≠ q then some s!"Q caches the new connection {q} but P caches {p}"
@@ -213,6 +228,31 @@ def drvStep (_ : Unit) (toks : List String) (rhs : String) : Unit × Verdict :=
           (field rhs "closed").toLower == (closedStr s).toLower
         if same then ((), .ok) else ((), .diff (winStr s))
     | _, _, _ => ((), .bad "win args")
+  | ["redial", pp, pq] =>
+    if rhs.startsWith "setup:" then ((), .ok) else     -- the scenario could not be set up (validated only)
+    match parseEntry pp, parseEntry pq with
+    | some pp, some pq =>
+      -- nothing but the negotiation happened: every close is a consequence of the negotiation
+      let closedAll := (field rhs "closed").toLower
+      let judged := s!"P={field rhs "P"};Q={field rhs "Q"};closed={closedAll};Pc={field rhs "Pc"}"
+      match specOf judged with
+      | some w => ((), .spec (w ++ " - a further dial between two peers that share a cached connection, no environment event: every close is the negotiation's"))
+      | none =>
+        let s := settle (run genTable (init false (pp, pq)) [.snap .Pc, .snap .Qc, .dec .Pc, .dec .Qc])
+        -- `Pc=cut`: P's end never decided, the other end's decision closed c (508) before P's end had read the
+        -- report - possible only where the model says that c loses and is closed by the negotiation
+        let cut := field rhs "Pc" == "cut" && (winRes s.pPc).startsWith "reused:" && s.clC == .neg
+        let same := ["P", "Q"].all (fun k => field rhs k == field (winStr s) k) &&
+          (cut || field rhs "Pc" == field (winStr s) "Pc") && closedAll == (closedStr s).toLower
+        if same then ((), .ok) else ((), .diff (winStr s))
+    | _, _ => ((), .bad "redial args")
+  | ["watch", d, ru] =>
+    match parseDirLong d, parseBool ru with
+    | some d, some ru =>
+      let a := Gen.C41.watch d ru
+      let m := s!"returned={boolS a.returned},negotiated={boolS a.negotiated}"
+      if m = rhs then ((), .ok) else ((), .diff m)
+    | _, _ => ((), .bad "watch args")
   | ["reap", ld] =>
     match parseBool ld with
     | some ld =>
